@@ -10,6 +10,9 @@ Definition oprec : Type := (Z * Z * N)%type.
 
 Definition erase (o : op) : oprec :=
   match o with
+  | OpHandler _ _ => (1, 0, 0%N)
+  | OpRaise false => (2, 0, 0%N)       (* OpCode_Signal *)
+  | OpRaise true => (10, 0, 0%N)       (* OpCode_Execute of the duplicate-key INSERT *)
   | OpSet _ _ => (6, 0, 0%N)
   | OpExecUser _ _ => (10, 0, 0%N)
   | OpDeclare _ _ => (1, 0, 0%N)
